@@ -302,6 +302,12 @@ class BaseText(object):
 
         return None, ()
 
+    @classmethod
+    def _from_typeinfo(cls, info, parts):
+        """Create a text object from the parameters returned by _typeinfo() and the given parts."""
+
+        return cls(*(list(info) + list(parts)))
+
 
 class BaseMultipartText(BaseText):
     info = ()
@@ -600,8 +606,7 @@ class BaseMultipartText(BaseText):
         """
 
         cls, cls_args = self._typeinfo()
-        args = list(cls_args) + list(parts)
-        return cls(*args)
+        return cls._from_typeinfo(cls_args, parts)
 
     def _merge_similar(self, parts):
         """Merge adjacent text objects with the same type and parameters together.
@@ -618,8 +623,7 @@ class BaseMultipartText(BaseText):
             group = list(group)
             if cls and len(group) > 1:
                 group_parts = itertools.chain(*(text.parts for text in group))
-                args = list(info) + list(group_parts)
-                yield cls(*args)
+                yield cls._from_typeinfo(info, group_parts)
             else:
                 for text in group:
                     yield text
@@ -887,9 +891,14 @@ class HRef(BaseMultipartText):
             raise ValueError(
                 "url must be str or Text (got %s)" % url.__class__.__name__)
         self.url = str(url)
-        self.info = self.url,
         self.external = external
+        self.info = self.url, self.external
         super(HRef, self).__init__(*args)
+
+    @classmethod
+    def _from_typeinfo(cls, info, parts):
+        url, external = info
+        return cls(url, *parts, external=external)
 
     def __repr__(self):
         reprparts = ', '.join(repr(part) for part in self.parts)
